@@ -229,15 +229,20 @@ def run_c04(rep, tier, seed):
         ops = rng.choice([40, 80]) if tier == "quick" else rng.choice([60, 150])
         keys = rng.choice([1, 2, 4])
         big = rng.choice([0, 30, 60])
-        dels, spin = 25, ""
+        dels, spin, mergers = 25, "", 1
         if ri % 3 == 2:
             # hot key, overwrites only: a get that follows a completed set can never be answered `nil`, so a window in
             # which a published key is momentarily missing from the index cannot hide behind a concurrent delete
             keys, dels, writers, readers, ops, big = 1, 0, 1, 4, 1500, rng.choice([0, 10])
-            spin = " spin=1 minms=150"      # readers keep reading as fast as they can until the writer is done (sampled recording)
+            # readers keep reading until the writer is done (sampled recording; 300 ns between two gets, or the
+            # reader-preferring spin lock of the index starves the writer); a preemption injector interrupts the writer
+            # about every 300 us at whatever instruction it is executing and makes it sleep there for >= 20 us, so that
+            # a window of a few instructions between two steps of a set is held open long enough to be seen
+            spin = " spin=1 minms=150 rgap_ns=300 preempt_us=300 pause_us=20"
+            mergers = (ri // 3) % 2
         preset = rng.choice(["frag=0/1 dead=0 small=1099511627776", "frag=1/4 dead=1099511627776 small=0", "frag=1/1 dead=1099511627776 small=200"])
         lines = [f"cfg mfs={mfs} pool={pool} cache={cache} {preset}", f"dir st{ri}", "open",
-                 f"stress writers={writers} readers={readers} mergers=1 ops={ops} keys={keys} seed={rng.randint(1, 10**6)} big={big} dels={dels}{spin}", "idle"]
+                 f"stress writers={writers} readers={readers} mergers={mergers} ops={ops} keys={keys} seed={rng.randint(1, 10**6)} big={big} dels={dels}{spin}", "idle"]
         shutil.rmtree(root, ignore_errors=True)
         died = None
         try:
@@ -267,7 +272,7 @@ def run_c04(rep, tier, seed):
             rep.sample({"stress": lines, "history_head": h[:8]})
     shutil.rmtree(root, ignore_errors=True)
     rep.cov["rule"] = ("(1) %d hand-written forced schedules using the crate's schedule points and a pause before a chosen write(2) (the two windows named in the property, merge/reader and writer/reader windows); "
-                       "(2) free-running stress: 1-3 writers (put with unique values of 8..48 bytes or 8191/8192/9000/20000 bytes, del; every third run: one hot key, one writer that only overwrites for at least 150 ms / 1500 times, 4 readers reading as fast as they can until the writer is done (a get is recorded when its result changes and every 100 us)), 1-4 readers, one merging thread, max_file_size in {0,60,300,9000,30000}, pool 1/2/4, cache 0/1/256; "
+                       "(2) free-running stress: 1-3 writers (put with unique values of 8..48 bytes or 8191/8192/9000/20000 bytes, del; every third run: one hot key, one writer that only overwrites for at least 150 ms / 1500 times, 4 readers reading until the writer is done (a get is recorded when its result changes and every 100 us), a preemption injector that interrupts the writer thread every ~300 us and makes it sleep >= 20 us wherever it is), 1-4 readers, one merging thread, max_file_size in {0,60,300,9000,30000}, pool 1/2/4, cache 0/1/256; "
                        "the timestamped history is checked per key for linearizability (exact memoised search), values for tearing, results for panics/errors, the run for hangs, the pool for leaked readers; "
                        "(3) correspondence with the LTS the theorems are about (`CStore.step`): model-guided schedules over 3 file sizes x 2 pool sizes x 6 initial stores x {get, put (3 bytes / 9000 bytes = two write(2) calls), del, merge} parked at each of its schedule points "
                        "(optionally a second, later one) while a second operation runs; for every move the model's prediction (parked at the point / finished with result / blocked) is compared with the real thread, and at the end the index, the active file id, "
